@@ -92,6 +92,9 @@ pub struct AsyncCase {
     /// references; its `&mut self` writers wait for the read guards subscribers hold)
     #[serde(default)]
     pub unique: bool,
+    /// replay of known finding K4: do not exclude its trigger
+    #[serde(default)]
+    pub strict: bool,
 }
 
 enum Out {
@@ -117,6 +120,10 @@ struct Task {
     writer: Option<Wr>,
     uses_sub: Option<usize>,
     started_under_write: bool,
+    /// spawn order (queue order of lock requests)
+    seq: u64,
+    /// queues for the write lock
+    wants_write: bool,
 }
 
 enum Held {
@@ -131,6 +138,12 @@ struct SubSlot {
     unseen: bool,
     /// flag of an outstanding Stream poll that returned Pending
     stream_flag: Option<Arc<Flag>>,
+    /// a notifying update happened after the outstanding Stream poll returned Pending: that
+    /// poll's waker is owed a wake-up (by the time no guard is alive), whoever consumes the update
+    owed: bool,
+    /// Some(seq): the lock request of the outstanding Stream poll has been sitting in the lock's
+    /// queue since spawn-order position `seq` (the poll found the lock unavailable)
+    queued_seq: Option<u64>,
     polled_under_write: bool,
     busy: bool,
 }
@@ -146,6 +159,9 @@ struct World {
     tasks: Vec<Task>,
     value: MOVal,
     closed: bool,
+    seq: u64,
+    strict: bool,
+    k4_excluded: u64,
     // features
     queued_then_completed: u32,
     sub_polled_under_write_then_ready: u32,
@@ -250,6 +266,9 @@ impl World {
     fn notify(&mut self) {
         for s in &mut self.subs {
             s.unseen = true;
+            if s.stream_flag.is_some() {
+                s.owed = true;
+            }
         }
     }
 
@@ -261,7 +280,9 @@ impl World {
         // a fresh task is runnable
         std::task::Wake::wake_by_ref(&flag);
         let started_under_write = self.write_held();
-        self.tasks.push(Task { fut: Some(fut), flag, what, writer, uses_sub, started_under_write });
+        self.seq += 1;
+        let wants_write = writer.is_some() || what.starts_with("write()");
+        self.tasks.push(Task { fut: Some(fut), flag, what, writer, uses_sub, started_under_write, seq: self.seq, wants_write });
     }
 
     /// A task finished: apply it to the model and compare.
@@ -321,11 +342,11 @@ impl World {
             }
             Out::Sub(s) => {
                 let p = Box::into_raw(Box::new(s));
-                self.subs.push(SubSlot { sub: p, unseen: false, stream_flag: None, polled_under_write: false, busy: false });
+                self.subs.push(SubSlot { sub: p, unseen: false, stream_flag: None, polled_under_write: false, busy: false, owed: false, queued_seq: None });
             }
             Out::SubR(s) => {
                 let p = Box::into_raw(Box::new(s));
-                self.subs.push(SubSlot { sub: p, unseen: true, stream_flag: None, polled_under_write: false, busy: false });
+                self.subs.push(SubSlot { sub: p, unseen: true, stream_flag: None, polled_under_write: false, busy: false, owed: false, queued_seq: None });
             }
             Out::SubVal(s, x) => {
                 let v = self.value;
@@ -368,6 +389,15 @@ impl World {
                 // Pending is legitimate when the lock is write-held or a writer is queued ahead
                 // (FIFO), or when there is nothing new
                 self.subs[s].stream_flag = Some(flag);
+                self.subs[s].owed = false;
+                let unavailable = wheld || self.tasks.iter().any(|t| t.fut.is_some() && t.wants_write);
+                if unavailable {
+                    if self.subs[s].queued_seq.is_none() {
+                        self.subs[s].queued_seq = Some(self.seq);
+                    }
+                } else {
+                    self.subs[s].queued_seq = None;
+                }
                 Ok(())
             }
             Poll::Ready(x) => {
@@ -390,6 +420,8 @@ impl World {
                 }
                 self.subs[s].unseen = false;
                 self.subs[s].stream_flag = None;
+                self.subs[s].owed = false;
+                self.subs[s].queued_seq = None;
                 Ok(())
             }
         }
@@ -438,6 +470,18 @@ impl World {
             if self.tasks[ti].fut.is_some() {
                 let what = self.tasks[ti].what.clone();
                 return self.fail(format!("{what} is still pending although no guard is alive and every woken task has run (lost wakeup on lock release)"));
+            }
+        }
+        // the waker of a Stream poll that was Pending when a notifying update happened is woken,
+        // also when another call on the same subscriber (next_now, get, read) consumed the update
+        for s in 0..self.subs.len() {
+            if let Some(f) = &self.subs[s].stream_flag {
+                if self.subs[s].owed && !self.subs[s].busy {
+                    let woken = f.woken();
+                    self.check_t(woken, &[Prop::C02], || {
+                        format!("subscriber {s}: a notifying update happened after its Stream poll returned Pending and no guard is alive any more, but that poll's waker was never woken")
+                    })?;
+                }
             }
         }
         // a subscriber whose Stream poll is outstanding must be Pending for a model reason
@@ -523,6 +567,23 @@ impl World {
         Ok(())
     }
 
+    /// Known finding K4: the lock request of an outstanding Stream poll sits in the lock's queue, a
+    /// writer queued after it, and now another lock-taking call on the same subscriber would queue
+    /// behind that writer: once the request is granted nobody polls it, the writer waits for its
+    /// permit and the new call waits for the writer - for ever.
+    fn k4_trigger(&mut self, s: usize) -> bool {
+        let Some(q) = self.subs[s].queued_seq else { return false };
+        if self.subs[s].stream_flag.is_none() {
+            return false;
+        }
+        let hit = self.tasks.iter().any(|t| t.fut.is_some() && t.wants_write && t.seq > q);
+        if hit && !self.strict {
+            self.k4_excluded += 1;
+            return true;
+        }
+        false
+    }
+
     fn check_weaks_dead(&mut self) -> R {
         for i in 0..self.weaks.len() {
             let up = self.weaks[i].upgrade();
@@ -583,7 +644,7 @@ impl World {
                     let o: &UObs = unsafe { &*up };
                     let sub = if reset { UObs::subscribe_reset_async(o) } else { UObs::subscribe_async(o) };
                     let p = Box::into_raw(Box::new(sub));
-                    self.subs.push(SubSlot { sub: p, unseen: reset, stream_flag: None, polled_under_write: false, busy: false });
+                    self.subs.push(SubSlot { sub: p, unseen: reset, stream_flag: None, polled_under_write: false, busy: false, owed: false, queued_seq: None });
                 }
                 Ok(true)
             }
@@ -714,10 +775,16 @@ impl World {
                 self.spawn("subscribe().await".into(), None, None, Box::pin(async move { Out::Sub(o.subscribe().await) }));
             }
             AOp::SubGet(ix) | AOp::SubNextNow(ix) | AOp::SubNext(ix) => {
-                let free: Vec<usize> = (0..self.subs.len()).filter(|i| !self.subs[*i].busy && self.subs[*i].stream_flag.is_none()).collect();
+                // next() is another poll for an update (it supersedes an outstanding Stream poll's
+                // waker): only on subscribers without one; get / next_now leave it parked
+                let parked_ok = !matches!(op, AOp::SubNext(_));
+                let free: Vec<usize> = (0..self.subs.len()).filter(|i| !self.subs[*i].busy && (parked_ok || self.subs[*i].stream_flag.is_none())).collect();
                 let Some(i) = pick(ix, free.len()) else { return Ok(()) };
                 let s = free[i];
                 if self.tasks.iter().filter(|t| t.fut.is_some()).count() >= 6 {
+                    return Ok(());
+                }
+                if self.k4_trigger(s) {
                     return Ok(());
                 }
                 let sub: &'static mut Sub = unsafe { &mut *self.subs[s].sub };
@@ -737,10 +804,14 @@ impl World {
                 }
             }
             AOp::SubAcquireRead(ix) | AOp::SubNextRef(ix) => {
-                let free: Vec<usize> = (0..self.subs.len()).filter(|i| !self.subs[*i].busy && self.subs[*i].stream_flag.is_none()).collect();
+                let parked_ok = matches!(op, AOp::SubAcquireRead(_));
+                let free: Vec<usize> = (0..self.subs.len()).filter(|i| !self.subs[*i].busy && (parked_ok || self.subs[*i].stream_flag.is_none())).collect();
                 let Some(i) = pick(ix, free.len()) else { return Ok(()) };
                 let s = free[i];
                 if self.held.iter().flatten().count() + self.tasks.iter().filter(|t| t.fut.is_some()).count() >= 6 {
+                    return Ok(());
+                }
+                if self.k4_trigger(s) {
                     return Ok(());
                 }
                 let sub: &'static mut Sub = unsafe { &mut *self.subs[s].sub };
@@ -766,10 +837,13 @@ impl World {
                 self.poll_stream(free[i], true)?;
             }
             AOp::SubNextRefNow(ix) => {
-                let free: Vec<usize> = (0..self.subs.len()).filter(|i| !self.subs[*i].busy && self.subs[*i].stream_flag.is_none()).collect();
+                let free: Vec<usize> = (0..self.subs.len()).filter(|i| !self.subs[*i].busy).collect();
                 let Some(i) = pick(ix, free.len()) else { return Ok(()) };
                 let s = free[i];
                 if self.held.iter().flatten().count() + self.tasks.iter().filter(|t| t.fut.is_some()).count() >= 6 {
+                    return Ok(());
+                }
+                if self.k4_trigger(s) {
                     return Ok(());
                 }
                 let sub: &'static mut Sub = unsafe { &mut *self.subs[s].sub };
@@ -782,7 +856,7 @@ impl World {
                 }
                 // needs no lock: works at once, also under a write guard
                 let p = Box::into_raw(Box::new(o.subscribe_reset()));
-                self.subs.push(SubSlot { sub: p, unseen: true, stream_flag: None, polled_under_write: false, busy: false });
+                self.subs.push(SubSlot { sub: p, unseen: true, stream_flag: None, polled_under_write: false, busy: false, owed: false, queued_seq: None });
             }
             AOp::ReadBurst(n) => {
                 let Some(o) = self.owner() else { return Ok(()) };
@@ -846,7 +920,7 @@ impl World {
                     }
                     let unseen = reset || self.subs[s].unseen;
                     let p = Box::into_raw(Box::new(c));
-                    self.subs.push(SubSlot { sub: p, unseen, stream_flag: None, polled_under_write: false, busy: false });
+                    self.subs.push(SubSlot { sub: p, unseen, stream_flag: None, polled_under_write: false, busy: false, owed: false, queued_seq: None });
                 }
             }
             AOp::CloneOwner => {
@@ -890,6 +964,9 @@ pub fn run(case: &AsyncCase, prop: Prop) -> R<CaseReport> {
         tasks: vec![],
         value: if case.start_default { (0, 0) } else { case.init },
         closed: false,
+        seq: 0,
+        strict: case.strict,
+        k4_excluded: 0,
         queued_then_completed: 0,
         sub_polled_under_write_then_ready: 0,
         writer_waited: 0,
@@ -955,6 +1032,7 @@ pub fn run(case: &AsyncCase, prop: Prop) -> R<CaseReport> {
         return if prop == Prop::C20 { Err(Stop::Violation(msg)) } else { Err(Stop::Tainted(msg)) };
     }
     let mut rep = w.rep;
+    rep.excluded_known += w.k4_excluded;
     rep.nontrivial = w.queued_then_completed >= 1 || w.sub_polled_under_write_then_ready >= 1 || rep.classes.iter().any(|c| c.starts_with("owners_dropped_"));
     if w.queued_then_completed > 0 {
         rep.classes.push("task_queued_behind_write_guard_completed_after_release");
@@ -1016,6 +1094,6 @@ pub fn case() -> BoxedStrategy<AsyncCase> {
         prop_oneof![3 => Just(false), 1 => Just(true)],
         prop_oneof![4 => Just(false), 1 => Just(true)],
     )
-        .prop_map(|(init, ops, finale, start_default, unique)| AsyncCase { init, ops, finale, start_default, unique })
+        .prop_map(|(init, ops, finale, start_default, unique)| AsyncCase { init, ops, finale, start_default, unique, strict: false })
         .boxed()
 }
